@@ -19,7 +19,7 @@ CLAIMS = {
  "C06": ("The override discipline over every re-entrant path: (C06.a) every write under an effective unsafe context (own or borrowed through nested printers) is enveloped; (C05.c) safe override keeps writes visible; (C06.c) outermost wins in the four start* helpers; (C06.e) redact-specific dispatch is bypassed under Unsafe().", "§5 C06", TECH_AB),
  "C07": ("Decides the two marker patterns as regular languages (DFA construction from regexp/syntax, equivalence with start·(Σ∖{start,end})*·end and {start,end}, prefix-freeness), the replacement constants that make Redact/StripMarkers/EscapeMarkers exact and idempotent, and agreement of the string and []byte variants. Trusts Go's regexp for leftmost-first matching and ReplaceAll.", "§5 C07", "static analysis: constant folding of the pattern expressions + regular-language decision procedure (regexp/syntax program -> DFA, product-automaton equivalence)"),
  "C08": ("(C08.a) redactable operands are inlined raw by a direct buffer write in every configuration outside Unsafe(), escaped inside; (C08.b) a redactable operand flows nowhere else. The induction over re-print histories is an argument, not an analysis result.", "§5 C08", TECH_AB),
- "C09": ("Per SafeWriter method and per implementation: side from the parameter type, exactly one buffer write on the single path, payload is the parameter, mode of its side in every reachable configuration, verb/signedness agreement of the numeric emitters, fmt.State writes are unsafe; with C01.a/C01.b for the buffer below and C16.c for the builder's print route. The two textual equalities for arbitrary payloads need the escaper's arithmetic and are not decided.", "§5 C09", TECH_AB + " + structural SSA rules"),
+ "C09": ("Per SafeWriter method and per implementation: side from the parameter type, exactly one buffer write on the single path, payload is the parameter, mode of its side in every reachable configuration, verb/signedness agreement of the numeric emitters, fmt.State writes are unsafe; (C09.g) buffer growth keeps the old content, extends by exactly the request and the write methods store at the returned index; with C01.a/C01.b for the buffer below and C16.c for the builder's print route. The two textual equalities for arbitrary payloads need the escaper's arithmetic and are not decided.", "§5 C09", TECH_AB + " + structural SSA rules"),
  "C10": ("(C07) the regex half exactly; (C10.scan) structural necessary conditions of the byte scanner: start offset, window length = marker length, tight look-ahead guard, skip lengths, plain iterations advance by one, dangling-tail rule on every path; (C10.b) EscapeBytes shape; (C10.f) copy-on-write, path-sensitively; (C10.g) plain writes never escape or validate; (C03.c) splitter shape. Byte-exactness for all contents is not decided.", "§5 C10", TECH_D + " + path-sensitive abstract interpretation for copy-on-write"),
  "C11": ("Containment of user-method panics: (C11.c) no uncontained panicking exit from the dispatcher, re-raise only for nested panics, the panic report is written in the caller's classification; (C01.d) restorers run on panic paths.", "§5 C11", TECH_A),
  "C12": ("Pool hygiene (C12.b): every printer handed to sync.Pool.Put has no override, no captured error, a reset buffer; newPrinter re-establishes the per-call flags. No schedule is explored.", "§5 C12", TECH_A),
